@@ -125,8 +125,10 @@ PROPS = {
         "assumptions": ["Go pointer sharing of the end marker is unobservable (Insert never descends into it; shown by the model's case split and exercised by the suite)"],
     },
     "C16": {
-        "proof_modules": ["GrolProofs.Props.C16", "GrolProofs.LexStream"],
-        "theorems": ["Grol.Lexer.C16.cases", "Grol.Lexer.C16.progress", "Grol.Lexer.C16.tiling", "Grol.Lexer.C16.flags",
+        "proof_modules": ["GrolProofs.Props.C16", "GrolProofs.LexStream", "GrolProofs.TokenTie"],
+        "theorems": ["Grol.TokenTie.types_numbering", "Grol.TokenTie.cTokens_generated", "Grol.TokenTie.c2Tokens_generated",
+                     "Grol.TokenTie.keywords_generated", "Grol.TokenTie.tables_cover_generated", "Grol.TokenTie.const_iff_in_tables",
+                     "Grol.Lexer.C16.cases", "Grol.Lexer.C16.progress", "Grol.Lexer.C16.tiling", "Grol.Lexer.C16.flags",
                      "Grol.Lexer.C16.literal_span", "Grol.Lexer.C16.string_span", "Grol.Lexer.C16.linecomment_span",
                      "Grol.Lexer.C16.blockcomment_span", "Grol.Lexer.C16.no_nil_no_panic", "Grol.Lexer.C16.sticky_step",
                      "Grol.Lexer.C16.sticky", "Grol.Lexer.C16.marker_within", "Grol.Lexer.C16.monotone",
@@ -142,6 +144,7 @@ PROPS = {
                      "Grol.Lexer.isTrimOf_trimSpaceRight", "Grol.Lexer.isTrimOf_iff", "Grol.Lexer.C16.linecomment_literal",
                      "Grol.Lexer.C16.literal_ends_line", "Grol.LexStream.lexer_litFact"],
         "suites": ["lex"],
+        "generated": True,
         "rule": "lex suite: every case is one byte string in one lexer mode (f = lexer.NewBytes, l = lexer.NewLineMode); the observation is "
                 "every NextToken call up to the first end marker plus 3 more calls (type, literal, Pos before/after, HadWhitespace, "
                 "HadNewline, pointer identity numbered by first appearance, LastNewLine, line number) and CurrentLine at the end. "
@@ -160,7 +163,10 @@ PROPS = {
                                      "strings.TrimSpace, readBlockComment, CurrentLine, both modes), token/token.go (types, Init tables, "
                                      "LookupIdent, ConstantTokenChar(2), Intern/InternToken as an explicit table)",
                                      "token tables in lean/Grol/Token.lean are hand-written and compared with the running code by the `T;-` case of the suite "
-                                     "(Type.String() names in iota order, LookupIdent of every lower-cased name, all 256 ConstantTokenChar, all 65536 ConstantTokenChar2)",
+                                     "(Type.String() names in iota order, LookupIdent of every lower-cased name, all 256 ConstantTokenChar, all 65536 ConstantTokenChar2) "
+                                     "AND pinned by theorem against the table regenerated from the running code on every run (GrolProofs/TokenTie.lean: numbering of the "
+                                     "enumeration, every cTokens / c2Tokens / keywords entry = token.ByType(t).Literal(), and the three tables cover exactly the types "
+                                     "that have a constant literal; Grol/Generated/Precedence.lean constLiteral)",
                                      "the executable statement (Grol.LexSuite.statement) is an independent specification (own escape decoder, UTF-8 encoder, "
                                      "space-rune table, block-comment scanner); the theorems are about the model; the link statement<->theorems is by reading, "
                                      "and both are evaluated on the same cases"],
